@@ -5,6 +5,7 @@
 //! trusted: assume_specification for core::cmp::max / core::cmp::min (std definitions); can_accept_incoming_htlc is extracted whole with the same kind of stubs as validate_update_fee (acc_stats / acc_max_dust uninterpreted); R9: the tuple-pattern closure `|(fee, _)| fee` is written with a named parameter
 //! trusted: R15 (statement slicing): send_htlc: the unit extracts the zero-amount test and the two tests against get_available_balances' result (proved in u01) verbatim as a function of (amount_msat, available_balances); the channel-state pre-checks and the state update are dropped and not claimed; error strings dropped (R8)
 //! trusted: validate_update_fee is extracted whole; its callees get_next_local/remote_commitment_stats (thin wrappers of the builder function proved in u01), get_dust_exposure_limiting_feerate and get_max_dust_htlc_exposure_msat are external_body stubs returning uninterpreted values (local_stats_at / remote_stats_at / max_dust_exposure); FundingScope/ChannelContext self skeletons (R5); error messages dropped (R8)
+//! trusted: R15 (deep slice): send_htlc from `let need_holding_cell = ..` to the end, verbatim as a method of a skeleton {can_generate_new_commitment, holding cell, pending outbound HTLCs, next id}; the log statement between is dropped (R3); `hold_htlc.then(|| ())` is written as the if-expression it abbreviates (R9); duration_since_epoch is a stub
 use vstd::prelude::*;
 verus! {
 use vstd::std_specs::cmp::*;
@@ -197,5 +198,61 @@ pub enum SendFail { ZeroAmount, HTLCMinimum, HTLCMaximum }
 //@with
     amount_msat > available_balances.next_outbound_htlc_limit_msat.saturating_add(1)
 //@end
+
+// ---- where an accepted outbound HTLC is recorded (R15 slice of FundedChannel::send_htlc: from `let need_holding_cell` to the end) ----
+pub mod send_tail {
+use vstd::prelude::*;
+pub trait Logger {}
+#[derive(Clone, Copy)] pub struct PaymentHash(pub u64);
+pub struct HTLCSource { pub id: u64 } pub struct OnionPacket { pub id: u64 } pub struct PublicKey { pub id: u64 } pub struct Duration { pub id: u64 }
+pub enum HTLCUpdateAwaitingACK { AddHTLC { amount_msat: u64, cltv_expiry: u32, payment_hash: PaymentHash, source: HTLCSource, onion_routing_packet: OnionPacket, skimmed_fee_msat: Option<u64>,
+    blinding_point: Option<PublicKey>, hold_htlc: Option<()>, accountable: bool }, Other }
+pub enum OutboundHTLCState { LocalAnnounced(Box<OnionPacket>), Committed }
+pub struct OutboundHTLCOutput { pub htlc_id: u64, pub amount_msat: u64, pub cltv_expiry: u32, pub payment_hash: PaymentHash, pub state: OutboundHTLCState, pub source: HTLCSource,
+    pub blinding_point: Option<PublicKey>, pub skimmed_fee_msat: Option<u64>, pub send_timestamp: Option<Duration>, pub hold_htlc: Option<()>, pub accountable: bool }
+pub struct SendState { pub can_commit: bool }
+impl SendState { #[verifier::external_body] pub fn can_generate_new_commitment(&self) -> (r: bool) ensures r == self.can_commit { unimplemented!() } }
+pub struct SendCtx { pub channel_state: SendState, pub holding_cell_htlc_updates: Vec<HTLCUpdateAwaitingACK>, pub pending_outbound_htlcs: Vec<OutboundHTLCOutput>, pub next_holder_htlc_id: u64 }
+pub struct SendChannel { pub context: SendCtx }
+pub uninterp spec fn now() -> Option<Duration>;
+#[verifier::external_body] pub fn duration_since_epoch() -> (r: Option<Duration>) ensures r == now() { unimplemented!() }
+pub open spec fn flag(b: bool) -> Option<()> { if b { Some(()) } else { None } }
+impl SendChannel {
+//@extract lightning/src/ln/channel.rs :: impl FundedChannel :: fn send_htlc
+//@strip msgs
+//@slice R15
+    let need_holding_cell = $n:seq; if need_holding_cell { $f:straight } if force_holding_cell { $held:any } $sent:any Ok(true) }
+//@with
+    fn record_the_outbound_htlc(&mut self, amount_msat: u64, payment_hash: PaymentHash, cltv_expiry: u32, source: HTLCSource, onion_routing_packet: OnionPacket, force_holding_cell_: bool,
+        skimmed_fee_msat: Option<u64>, blinding_point: Option<PublicKey>, hold_htlc: bool, accountable: bool) -> Result<bool, (u8, u8)> {
+        let mut force_holding_cell = force_holding_cell_;
+        let need_holding_cell = $n; if need_holding_cell { $f } if force_holding_cell { $held } $sent Ok(true) }
+//@rw R9 *
+    hold_htlc.then(|| ())
+//@with
+    (if hold_htlc { Some(()) } else { None })
+//@ret r
+//@requires
+    old(self).context.next_holder_htlc_id < u64::MAX,
+//@ensures P C01 an-accepted-outbound-htlc-is-recorded-exactly-once-with-the-values-it-was-sent-with-held-back-when-no-commitment-can-be-generated-and-otherwise-announced-under-the-next-unused-id
+    ({ let held = force_holding_cell_ || !old(self).context.channel_state.can_commit;
+       &&& held ==> r == Ok::<bool, (u8, u8)>(false) && final(self).context.pending_outbound_htlcs@ == old(self).context.pending_outbound_htlcs@ && final(self).context.next_holder_htlc_id == old(self).context.next_holder_htlc_id
+            && final(self).context.holding_cell_htlc_updates@ =~= old(self).context.holding_cell_htlc_updates@.push(HTLCUpdateAwaitingACK::AddHTLC { amount_msat, cltv_expiry, payment_hash, source, onion_routing_packet,
+                    skimmed_fee_msat, blinding_point, hold_htlc: flag(hold_htlc), accountable })
+       &&& !held ==> r == Ok::<bool, (u8, u8)>(true) && final(self).context.holding_cell_htlc_updates@ == old(self).context.holding_cell_htlc_updates@
+            && final(self).context.next_holder_htlc_id == old(self).context.next_holder_htlc_id + 1
+            && final(self).context.pending_outbound_htlcs@ =~= old(self).context.pending_outbound_htlcs@.push(OutboundHTLCOutput { htlc_id: old(self).context.next_holder_htlc_id, amount_msat, cltv_expiry, payment_hash,
+                    state: OutboundHTLCState::LocalAnnounced(Box::new(onion_routing_packet)), source, blinding_point, skimmed_fee_msat, send_timestamp: now(), hold_htlc: flag(hold_htlc), accountable }) }),
+//@mutant htlc_announced_although_no_commitment_can_be_generated
+    if need_holding_cell { force_holding_cell = true; }
+//@with
+    if need_holding_cell && false { force_holding_cell = true; }
+//@mutant next_htlc_id_not_advanced
+    self.context.next_holder_htlc_id += 1;
+//@with
+    self.context.next_holder_htlc_id += 0;
+//@end
+}
+}
 }
 fn main() {}
